@@ -129,11 +129,37 @@ def generate(rng, tier):
                 if rng.random() < 0.5:
                     ops.append({"op": "sleep", "d": rng.choice(DELAYS)})
             actors.append({"name": "w%da%d" % (e, wid), "ops": ops})
+    if rng.random() < 0.3:
+        actors.extend(_diamond(rng, wid))
     for i in range(rng.randint(1, 3)):
         actors.append(gen.setter(i))
     rng.shuffle(actors)
     return {"property": ID, "scenario": {"resources": resources, "actors": actors},
             "plan": [], "config": {"waitq": rng.choice(["heap", "sd"])}}
+
+
+def _diamond(rng, wid):
+    """Two shared connectives over a common leaf; one waiter on their combination, others on
+    each of them (also through until-blocks): wake-up order must not depend on addresses."""
+    leaf = {"k": "flag", "n": "f0"}
+    kind = rng.choice(["and", "or"])
+    left = {"k": "shared", "n": "DL", "x": {"k": kind, "xs": [
+        leaf, {"k": "flag", "n": "f1"} if kind == "or" else {"k": "not", "x": {"k": "flag", "n": "f2"}}]}}
+    right = {"k": "shared", "n": "DR", "x": {"k": kind, "xs": [
+        leaf, {"k": "cmp", "l": "x0", "op": rng.choice([">=", "<"]), "r": rng.randint(0, 3)}]}}
+    combo = {"k": rng.choice(["and", "or"]), "xs": [left, right]}
+    actors = [{"name": "dz", "ops": [{"op": "wait", "id": "w%d" % (wid + 1), "x": combo},
+                                     {"op": "now", "tag": "dz"}]}]
+    for name, expr, ident in (("dx", left, wid + 2), ("dy", right, wid + 3)):
+        ops = [{"op": "postpone", "k": rng.randint(1, 2)}]
+        if rng.random() < 0.6:
+            ops.append({"op": "scope", "label": "U" + name, "until": expr, "children": [],
+                        "body": [{"op": "eternity"}]})
+        else:
+            ops.append({"op": "wait", "id": "w%d" % ident, "x": expr})
+        ops.append({"op": "now", "tag": name})
+        actors.append({"name": name, "ops": ops})
+    return actors
 
 
 def _waits(scenario):
